@@ -1027,6 +1027,11 @@ def _finish(draw, S, out):
         S.try_emit(['real', last])
         last = S.nreg() - 1
     if out == 'any':
+        if draw(st.integers(0, 3)) == 0:
+            # an intermediate register as output: the dependent node then has consumers recorded after it
+            c = [q for q in range(S.n, S.nreg() - 1) if not S.cplx(q)]
+            if c:
+                return draw(st.sampled_from(c))
         return last
     if out == 'scalar':
         if S.ndim(last) > 0:
